@@ -52,6 +52,10 @@ def values_with_refs_text(rng, doc):
     for p in doc.get("parameterDefinitions") or []:
         if p["type"] == "STRING" and p["name"] in vals and not any(k in p for k in ("allowedValues", "minLength", "maxLength")) and rng.random() < 0.4:
             vals[p["name"]] = rng.choice(["{{Param.Other}}", "{{ RawParam." + p["name"] + " }}", "}}{{", "a{{b", "x y", ""])
+    # PATH values in a spelling pathlib would rewrite (absolute ones pass through create_job as given)
+    for p in doc.get("parameterDefinitions") or []:
+        if p["type"] == "PATH" and not any(k in p for k in ("allowedValues", "minLength", "maxLength")) and rng.random() < 0.4:
+            vals[p["name"]] = rng.choice(["/mnt/render/out/", "/mnt//render/out", "/mnt/./render", "/a/b/../c", "//net/share", "/", "/trailing/."])
     # numbers in another spelling of the same value (int() / Decimal() read them all): the Job must carry the text
     # that was given, wherever it is substituted
     for p in doc.get("parameterDefinitions") or []:
@@ -158,7 +162,16 @@ class C05(core.PropBase):
                 types[p["name"]] = p["type"]
         prep["jt"], prep["ets"] = jt, ets
         prep["earlier"] = [{k: ParameterValue(type=ParameterValueType(types[k]), value=v) for k, v in ev.items() if k in types} for ev in case.get("earlier", [])]
-        prep["final"] = [[core.cps(k), core.cps(v.type.value), core.cps(v.value)] for k, v in final.items()]
+        # what the model is told the final values are: the implementation's preprocessing result, EXCEPT where the text of
+        # C10 / C11 fixes it outright — a supplied value of a non-PATH parameter, and a supplied PATH value that is
+        # absolute or empty, are final as given (server mode).  (Relative PATH values are joined by pathlib: C11's.)
+        def final_value(k, v):
+            if k in case["vals"]:
+                given = case["vals"][k]
+                if v.type.value != "PATH" or given == "" or given.startswith("/"):
+                    return given
+            return v.value
+        prep["final"] = [[core.cps(k), core.cps(v.type.value), core.cps(final_value(k, v))] for k, v in final.items()]
         prep["pv"] = {k: ParameterValue(type=ParameterValueType(types[k]), value=v) for k, v in case["vals"].items()}
         case["_prep"] = prep
         return prep
